@@ -5,9 +5,13 @@ mod kinds;
 mod mech;
 mod rval;
 mod progs;
+mod xgen;
 mod props;
 
 use engine::*;
+
+#[global_allocator]
+static GLOBAL: mech::ProbeAlloc = mech::ProbeAlloc;
 
 fn arg(args: &[String], name: &str) -> Option<String> {
   args.iter().position(|a| a == name).and_then(|i| args.get(i + 1).cloned())
@@ -50,6 +54,7 @@ fn main() {
     "emitcorpus" => emitcorpus(),
     "parsetime" => { use std::io::Read; mech::install_quiet_panic_hook(); let mut s = String::new(); std::io::stdin().read_to_string(&mut s).unwrap(); let h = std::thread::Builder::new().stack_size(1024 << 20).spawn(move || { let t0 = std::time::Instant::now(); let r = std::panic::catch_unwind(std::panic::AssertUnwindSafe(|| mech_syntax::parser::parse(&s))); println!("{} ms {}", t0.elapsed().as_millis(), match r { Ok(Ok(_)) => "ok", Ok(Err(_)) => "err", Err(_) => "panic" }); }).unwrap(); h.join().unwrap(); }
     "fmtprobe" => fmtprobe(),
+    "gramprobe" => gramprobe(),
     "docprobe" => docprobe(),
     "compileprobe" => compileprobe(),
     "fsmprobe" => fsmprobe(),
@@ -196,6 +201,40 @@ fn fmtprobe() {
     }
     println!("{} cases: {} ok, {} discarded", n, ok, disc);
     for (k, (cnt, ex)) in hist { println!("{:5}  {}   e.g. {}", cnt, k, ex); }
+  }).unwrap();
+  h.join().unwrap();
+}
+
+/// dev probe: N programs from the recursive grammar generator through the C08 round trip; parse rate, feature counts, failure histogram
+fn gramprobe() {
+  use props::c08::*;
+  mech::install_quiet_panic_hook();
+  let args: Vec<String> = std::env::args().collect();
+  let n: usize = args.get(2).and_then(|s| s.parse().ok()).unwrap_or(2000);
+  let show: usize = args.get(3).and_then(|s| s.parse().ok()).unwrap_or(0);
+  let h = std::thread::Builder::new().stack_size(512 << 20).spawn(move || {
+    let mut hist: std::collections::BTreeMap<String, (usize, String)> = Default::default();
+    let mut feats: std::collections::BTreeMap<&'static str, (usize, usize)> = Default::default();
+    let (mut ok, mut disc) = (0, 0);
+    let mut x: u64 = 0x9E3779B97F4A7C15;
+    let t0 = std::time::Instant::now();
+    for i in 0..n {
+      let len = 4 + (i % 60);
+      let ch: Vec<u32> = (0..len).map(|_| { x ^= x << 13; x ^= x >> 7; x ^= x << 17; (x % 1_000_000) as u32 }).collect();
+      let (src, fs) = if std::env::var("DOC").is_ok() { xgen::document(&ch) } else { xgen::program(&ch) };
+      if i < show { println!("--- #{}\n{}", i, src); }
+      let r = round_trip(&src);
+      let parsed = !matches!(r, Fmt::Discard(_));
+      for f in &fs { let e = feats.entry(*f).or_insert((0, 0)); e.0 += 1; if parsed { e.1 += 1; } }
+      match r {
+        Fmt::Ok(_) => ok += 1,
+        Fmt::Discard(w) => { disc += 1; let e = hist.entry(format!("discard: {}", w)).or_insert((0, src.clone())); e.0 += 1; }
+        Fmt::Fail(k, m) => { let e = hist.entry(k).or_insert((0, format!("{}\n   >>> {}", src, m.chars().take(300).collect::<String>()))); e.0 += 1; }
+      }
+    }
+    println!("{} programs in {:.1}s: {} ok, {} discarded", n, t0.elapsed().as_secs_f64(), ok, disc);
+    for (f, (a, b)) in feats { println!("  feat {:24} generated {:5} parsed {:5}", f, a, b); }
+    for (k, (cnt, ex)) in hist { println!("{:5}  {}\n   e.g. {}", cnt, k, ex.replace('\n', "\n        ")); }
   }).unwrap();
   h.join().unwrap();
 }
